@@ -167,6 +167,11 @@ Definition kind_registers (k : kind) : bool := match k with KC c => registers c 
 Definition is_bytes (v : value) := match v with VBytes _ => true | _ => false end.
 Definition is_int (v : value) := match v with VInt _ => true | _ => false end.
 
+(* ReplaceVocabUnslicer.checkToken: valueConstraint = ByteStringConstraint(vocab_word_limit) on the STRING header of a table word
+   (translated); a longer word is a Violation: the rest of the set-vocab sequence is discarded and the OLD table stays *)
+Definition word_ok (s : list Z) : bool :=
+  match vocab_word_limit with Some m => Z.of_nat (List.length s) <=? m | None => true end.
+
 Definition push_item (v : value) (f : frame) : frame :=
   {| f_kind := f_kind f; f_open := f_open f; f_count := f_count f; f_items := v :: f_items f; f_refs := f_refs f |}.
 
@@ -180,7 +185,11 @@ Definition recv (s : list frame) (v : value) : option (list frame) :=
     | KText | KDecimal => match f_items f, v with [], VBytes _ => Some (push_item v f :: r) | _, _ => None end
     | KBool => match f_items f, v with [], VInt _ => Some (push_item v f :: r) | _, _ => None end
     | KNone => None
-    | KVocab => match v with VInt _ | VBytes _ => Some (push_item v f :: r) | _ => None end
+    | KVocab => match v with
+                | VInt _ => Some (push_item v f :: r)
+                | VBytes s => if word_ok s then Some (push_item v f :: r) else None     (* Violation: the clean run ends *)
+                | _ => None
+                end
     | KRef => match f_items f, v with
               | [], VInt k => if lookup k s then Some (push_item (VPtr k) f :: r) else None   (* dangling reference *)
               | _, _ => None
@@ -536,11 +545,17 @@ Fixpoint sender_wire (cur : vtable) (items : list item) : list token :=
   | ISetVocab n tbl :: r => setvocab_tokens n tbl ++ sender_wire tbl r
   end.
 
-(* receiver: ReplaceVocabUnslicer collects (INT, STRING) pairs until its CLOSE, then replaceIncomingVocabulary *)
-Fixpoint parse_table (ts : list token) (acc : vtable) : option (vtable * list token) :=
+(* receiver: ReplaceVocabUnslicer collects (INT, STRING) pairs until its CLOSE, then replaceIncomingVocabulary.
+   Some (Some tbl, rest): the new table;  Some (None, rest): a word longer than the receiver's limit -- Violation, the rest of
+   the sequence up to its CLOSE is discarded (no OPEN can follow inside a table), the table is NOT replaced;  None: malformed *)
+Fixpoint skip_to_close (ts : list token) : option (list token) :=
+  match ts with [] => None | TClose _ :: r => Some r | _ :: r => skip_to_close r end.
+Fixpoint parse_table (ts : list token) (acc : vtable) : option (option vtable * list token) :=
   match ts with
-  | TInt i :: TString s :: r => parse_table r (acc ++ [(s, i)])
-  | TClose _ :: r => Some (acc, r)
+  | TInt i :: TString s :: r =>
+    if word_ok s then parse_table r (acc ++ [(s, i)])
+    else match skip_to_close r with Some r' => Some (None, r') | None => None end
+  | TClose _ :: r => Some (Some acc, r)
   | _ => None
   end.
 
@@ -555,16 +570,49 @@ Fixpoint receiver_view (fuel : nat) (cur : vtable) (ts : list token) : option (l
     | TOpen n :: TString s :: r =>
       if list_eqb s (hd [] ot_set_vocab) then
         match parse_table r [] with
-        | Some (tbl, r') =>
+        | Some (Some tbl, r') =>
           match receiver_view fu tbl r' with
           | Some out => Some (setvocab_tokens n tbl ++ out)
           | None => None
           end
-        | None => None
+        | _ => None       (* malformed, or a Violation: not a clean run (what the code does then: receiver_view_v) *)
         end
       else match receiver_view fu cur (TString s :: r) with Some out => Some (TOpen n :: out) | None => None end
     | t :: r =>
       match devocab1 cur t, receiver_view fu cur r with Some t', Some out => Some (t' :: out) | _, _ => None end
+    end
+  end.
+
+(* the same receiver, Violations included: a set-vocab sequence with a word over the limit is dropped as a whole (the root
+   is handed nothing for it), the table in force stays, and the stream goes on -- every later VOCAB token is expanded with
+   the OLD table.  Result: the object tokens seen (set-vocab sequences that were accepted still in place) and the number of
+   rejected table replacements.  A rejected sequence is shown to the object layer as an EMPTY set-vocab sequence: it hands the root
+   nothing and installs nothing there, but its OPEN took an object number (Banana.handleData counts every OPEN, discarded or
+   not: open_counts_when_discarded), so later references stay in step. *)
+Fixpoint receiver_view_v (fuel : nat) (cur : vtable) (ts : list token) : option (list token * Z) :=
+  match fuel with
+  | O => match ts with [] => Some ([], 0) | _ => None end
+  | S fu =>
+    match ts with
+    | [] => Some ([], 0)
+    | TOpen n :: TString s :: r =>
+      if list_eqb s (hd [] ot_set_vocab) then
+        match parse_table r [] with
+        | Some (Some tbl, r') =>
+          match receiver_view_v fu tbl r' with
+          | Some (out, k) => Some (setvocab_tokens n tbl ++ out, k)
+          | None => None
+          end
+        | Some (None, r') =>
+          match receiver_view_v fu cur r' with
+          | Some (out, k) => Some (setvocab_tokens n [] ++ out, k + 1)   (* the rejected sequence still took its OPEN number *)
+          | None => None
+          end
+        | None => None
+        end
+      else match receiver_view_v fu cur (TString s :: r) with Some (out, k) => Some (TOpen n :: out, k) | None => None end
+    | t :: r =>
+      match devocab1 cur t, receiver_view_v fu cur r with Some t', Some (out, k) => Some (t' :: out, k) | _, _ => None end
     end
   end.
 
